@@ -15,15 +15,13 @@ fn flip(report: &mut diagn::Report) -> Result<(), ()> {
         Ok(())
     }
 }
-static mut PHASE_LOG: [u8; 16] = [0; 16];
-static mut PHASE_N: usize = 0;
-static mut AFTER_OUTPUT_FAIL: bool = false;
-static mut OUTPUT_BUILT: bool = false;
+struct PhaseLog { magic: u64, log: [u8; 16], n: usize, after_output_fail: bool, output_built: bool }
+static mut PH: PhaseLog = PhaseLog { magic: 0x5048_5eed_c0de_0005, log: [0; 16], n: 0, after_output_fail: false, output_built: false };
 fn logp(id: u8) {
     unsafe {
-        if PHASE_N < 16 {
-            PHASE_LOG[PHASE_N] = id;
-            PHASE_N += 1;
+        if PH.n < 16 {
+            PH.log[PH.n] = id;
+            PH.n += 1;
         }
     }
 }
@@ -79,14 +77,14 @@ pub fn st_bank_overlap(report: &mut diagn::Report, _decls: &asm::ItemDecls, _def
 pub fn st_build_output(report: &mut diagn::Report, _ast: &asm::AstTopLevel, _decls: &asm::ItemDecls, _defs: &asm::ItemDefs) -> Result<util::BitVec, ()> {
     logp(12);
     flip(report)?;
-    unsafe { OUTPUT_BUILT = true; }
+    unsafe { PH.output_built = true; }
     Ok(util::BitVec::new())
 }
 pub fn st_unused(report: &mut diagn::Report, _o: &asm::AssemblyOptions, _d: &asm::ItemDecls) -> Result<(), ()> {
     logp(13);
     let r = flip(report);
     if r.is_err() {
-        unsafe { AFTER_OUTPUT_FAIL = OUTPUT_BUILT; }
+        unsafe { PH.after_output_fail = PH.output_built; }
     }
     r
 }
@@ -118,9 +116,9 @@ modelled! {
         assert!(res.error || res.output.is_some(), "successful assembly without output");
         assert!(res.error || res.iterations_taken.is_some());
         kani::cover!(!res.error, "all phases succeed");
-        kani::cover!(res.error && unsafe { PHASE_N } == 1, "first phase fails");
-        kani::cover!(res.error && unsafe { PHASE_LOG[PHASE_N - 1] } == 13, "last phase fails");
-        kani::cover!(res.error && unsafe { PHASE_LOG[PHASE_N - 1] } == 10, "resolution fails");
+        kani::cover!(res.error && unsafe { PH.n } == 1, "first phase fails");
+        kani::cover!(res.error && unsafe { PH.log[PH.n - 1] } == 13, "last phase fails");
+        kani::cover!(res.error && unsafe { PH.log[PH.n - 1] } == 10, "resolution fails");
         std::mem::forget(res);
         std::mem::forget(report);
         std::mem::forget(opts);
@@ -129,13 +127,13 @@ modelled! {
 
 // ---------------------------------------------------------------- C03-c: step contracts
 
-static mut EVAL_KIND: u8 = 0;
-static mut EVAL_BOOL: bool = false;
+struct BoolEval { magic: u64, kind: u8, b: bool }
+static mut BE: BoolEval = BoolEval { magic: 0x4245_5eed_c0de_0006, kind: 0, b: false };
 /// Contract stub for the evaluator: Ok(Bool b) | Ok(Integer 0) | Ok(Unknown) | Err after an error.
 pub fn st_eval_bool(report: &mut diagn::Report, _opts: &asm::AssemblyOptions, _fs: &mut dyn util::FileServer, _decls: &asm::ItemDecls, _defs: &asm::ItemDefs, _ctx: &asm::ResolverContext, _ectx: &mut expr::EvalContext, _e: &expr::Expr) -> Result<expr::Value, ()> {
     unsafe {
-        match EVAL_KIND {
-            0 => Ok(expr::Value::Bool(EVAL_BOOL)),
+        match BE.kind {
+            0 => Ok(expr::Value::Bool(BE.b)),
             1 => Ok(expr::Value::make_integer(BigInt::new(0, None))),
             2 => Ok(expr::Value::Unknown),
             _ => {
@@ -158,7 +156,7 @@ modelled! {
         let k: u8 = kani::any();
         kani::assume(k < 4);
         let last: bool = kani::any();
-        unsafe { EVAL_BOOL = b; EVAL_KIND = k; }
+        unsafe { BE.b = b; BE.kind = k; }
         let ast = asm::AstDirectiveAssert { header_span: sp(), condition_expr: expr::Expr::Literal(sp(), expr::Value::Bool(b)) };
         let bd = asm::resolver::BankData { cur_position: 0 };
         let ctx = rctx(&bd, 0, false, last);
